@@ -83,7 +83,7 @@ def run(chk: harness.Check):
         "D2: the MIR expression returned by convert_f64 is canonicalised and compared with the affine formula; Converter::convert_value maps "
         "number, range start and range end through convert_f64 with (from, to) in parameter order. D3: the convert_value call in convert_to_unit "
         "is edge-dominated by equality of the two physical quantities; every assignment to *self in convert_impl is preceded by the fallible steps. "
-        "D4: best_unit receivers come from self.best[unit.physical_quantity].conversions(system). D8: convert_impl and fit_fraction replace number and unit in one write, both from the same conversion result. D7: the C12 identity value(new_approx(v)) = v and its limit/saturation guards, claimed here because fit stores that result. D6: expand_si gives a prefixed unit ratio = base.ratio * prefix.ratio() "
+        "D4: best_unit receivers come from self.best[unit.physical_quantity].conversions(system). D9: the converter's input is Number::value() for numbers and both range ends. D8: convert_impl and fit_fraction replace number and unit in one write, both from the same conversion result. D7: the C12 identity value(new_approx(v)) = v and its limit/saturation guards, claimed here because fit stores that result. D6: expand_si gives a prefixed unit ratio = base.ratio * prefix.ratio() "
         "and the base's difference/quantity/system, and update_expanded_units overwrites all_units[expanded_id] whole with the regenerated unit. Shape and lineage only — no value is computed from an input.")
     chk.trusted = ["tables/units_reference.toml (international definitions)", "rustc const evaluation of float literals", "build.rs transfers TOML values verbatim (checked by the multiset comparison)"]
     d1_units(chk, F)
@@ -93,6 +93,7 @@ def run(chk: harness.Check):
     d5_fit_range(chk, F)
     d6_si_expansion(chk, F, "C09.D6-si-expansion")
     d8_value_unit_together(chk, F)
+    d9_input_exact(chk, F)
     # D7: "preserves the amount, any recorded fraction error included" — fitting stores Number::new_approx's result, so the
     # writer/reader identity and the limit/saturation guards decided for C12 are necessary here too
     import c12
@@ -101,6 +102,32 @@ def run(chk: harness.Check):
     harness.fold(chk, sub, lambda r: "C09.D7-fraction-exact." + r.split(".", 1)[1] if r.startswith("C12.") else r,
                  keep=lambda r: r in ("C12.D1-agreement", "C12.D2-limits", "anchor-missing"))
     chk.analysed["facts"] = th
+
+
+def d9_input_exact(chk, F):
+    """'preserves the amount, any recorded fraction error included': the number handed to the converter is Number::value() —
+    whole + err + num/den — for a single number and for both ends of a range, not some other reading of the Number."""
+    from cfgq import aggregates
+    ks = [k for k in F.funcs if k.endswith("try_from") and "convert::ConvertValue as std::convert::TryFrom<&quantity::Value>" in k]
+    if len(ks) != 1:
+        chk.fail("anchor-missing", "TryFrom<&Value> for ConvertValue", "", f"anchor-missing: conversion of Value into ConvertValue found {len(ks)} times")
+        return
+    aggs = aggregates(F, ks[0], "convert::ConvertValue")
+    seen = set()
+    for ff, i, st, d in aggs:
+        v = st["rv"]["variant"]
+        seen.add(v)
+        e = resolve(ff, list(d.values())[0])
+        calls = [l[5:] for l in leaves(e) if l.startswith("call:")]
+        nv = sum(1 for n in __import__("flow").walk(e) if n[0] == "call" and n[1].endswith("quantity::Number::value"))
+        other = [c for c in calls if not c.endswith(("quantity::Number::value", "RangeInclusive::<Idx>::new"))]
+        want = 1 if v == "Number" else 2
+        chk.expect(nv == want and not other, "C09.D9-input-exact", f"ConvertValue::{v}", f"{ff.file}:{st.get('line')}",
+                   f"the {v.lower()} given to the converter is {show(e, -50)[:120]}: it must be Number::value() (which includes the recorded fraction error)"
+                   + (f"; it goes through {sorted(set(c.rsplit('::', 2)[-2] + '::' + c.rsplit('::', 1)[-1] for c in other))}" if other else ""),
+                   sample=f"{ff.file}:{st.get('line')}: ConvertValue::{v} ← Number::value()")
+    chk.expect({"Number", "Range"} <= seen, "C09.D9-input-exact", "variants", "", f"ConvertValue::Number and ::Range must both be built from a Value; found {sorted(seen)}",
+               sample="Number and Range converted")
 
 
 def d8_value_unit_together(chk, F, rule="C09.D8-value-unit-together"):
